@@ -60,6 +60,14 @@ type Node struct {
 	// ("unsupported google type"), is declared after the first k-1 references: the type
 	// cannot be reflected, nor can any type from which it is reachable.
 	Bad int `json:"bad,omitempty"`
+
+	// Nest = p+1 > 0: the message is declared INSIDE message node p (same package), under the name N<i>:
+	// protobuf full name pkg.M<p>.N<i>, schema name (the descriptor path joined by "_") pkg.M<p>_N<i>.
+	// Twin = a+1 > 0: a top-level message of the package of the nested node a whose NAME is M<p>_N<a>:
+	// another descriptor with the very schema name of node a (a split-name collision; valid protobuf).
+	// The cache key of both is the model name of a (Key).
+	Nest int `json:"nest,omitempty"`
+	Twin int `json:"twin,omitempty"`
 }
 
 // Name is the model's name of node i.
@@ -98,14 +106,92 @@ type Built struct {
 
 func (u *Universe) pkgName(p int) string { return fmt.Sprintf("conc%s.p%d.v1", u.Tag, p) }
 func (u *Universe) typeName(i int) string {
-	if u.Nodes[i].Kind == KEnum {
+	n := u.Nodes[i]
+	switch {
+	case n.Kind == KEnum:
 		return fmt.Sprintf("E%d", i)
+	case n.Nest > 0:
+		return fmt.Sprintf("N%d", i)
+	case n.Twin > 0:
+		return u.splitName(n.Twin - 1)
 	}
 	return fmt.Sprintf("M%d", i)
 }
 
+// splitName is the schema name of node i inside its package: the descriptor path joined by "_".
+func (u *Universe) splitName(i int) string {
+	if p := u.Nodes[i].Nest; p > 0 {
+		return u.splitName(p-1) + "_" + u.typeName(i)
+	}
+	return u.typeName(i)
+}
+
 // FullName is the protobuf full name of node i.
-func (u *Universe) FullName(i int) string { return u.pkgName(u.Nodes[i].Pkg) + "." + u.typeName(i) }
+func (u *Universe) FullName(i int) string {
+	if p := u.Nodes[i].Nest; p > 0 {
+		return u.FullName(p-1) + "." + u.typeName(i)
+	}
+	return u.pkgName(u.Nodes[i].Pkg) + "." + u.typeName(i)
+}
+
+// Key is the model name of the cache key of node i: its own name, except for the twin of a nested
+// message, which shares the key of that message.
+func (u *Universe) Key(i int) int {
+	if t := u.Nodes[i].Twin; t > 0 {
+		return Name(t - 1)
+	}
+	return Name(i)
+}
+
+// Collides reports whether two descriptors of the universe share a schema name.
+func (u *Universe) Collides() bool {
+	for _, n := range u.Nodes {
+		if n.Twin > 0 {
+			return true
+		}
+	}
+	return false
+}
+
+// ReachesCollision reports whether a node with a shared schema name is reachable from node i (i included).
+func (u *Universe) ReachesCollision(i int) bool {
+	shared := map[int]bool{}
+	for j, n := range u.Nodes {
+		if n.Twin > 0 {
+			shared[j] = true
+			shared[n.Twin-1] = true
+		}
+	}
+	seen := map[int]bool{}
+	var visit func(i int) bool
+	visit = func(i int) bool {
+		if shared[i] {
+			return true
+		}
+		if seen[i] {
+			return false
+		}
+		seen[i] = true
+		for _, j := range u.Nodes[i].Refs {
+			if visit(j) {
+				return true
+			}
+		}
+		return false
+	}
+	return visit(i)
+}
+
+// CoqKeys renders the key table as a coq term of type ConcKey.keymap (descriptor -> key, identity elsewhere).
+func (u *Universe) CoqKeys() string {
+	var parts []string
+	for i := range u.Nodes {
+		if k := u.Key(i); k != Name(i) {
+			parts = append(parts, fmt.Sprintf("(%d,%d)", Name(i), k))
+		}
+	}
+	return "[" + strings.Join(parts, ";") + "]"
+}
 
 // Valid reports whether the universe can be turned into descriptor files.
 func (u *Universe) Valid() error {
@@ -135,6 +221,22 @@ func (u *Universe) Valid() error {
 		}
 		if n.Wrapper && (len(n.Refs) == 0 || len(n.Expose) > 0) {
 			return fmt.Errorf("node %d: bad wrapper", i)
+		}
+		if n.Nest > 0 {
+			if n.Kind != KMsg || n.Twin > 0 || n.Nest-1 >= len(u.Nodes) || n.Nest-1 == i {
+				return fmt.Errorf("node %d: bad nesting", i)
+			}
+			if p := u.Nodes[n.Nest-1]; p.Kind != KMsg || p.Pkg != n.Pkg || p.Nest > 0 || p.Twin > 0 {
+				return fmt.Errorf("node %d: bad parent", i)
+			}
+		}
+		if n.Twin > 0 {
+			if n.Kind != KMsg || n.Twin-1 >= len(u.Nodes) {
+				return fmt.Errorf("node %d: bad twin", i)
+			}
+			if a := u.Nodes[n.Twin-1]; a.Nest == 0 || a.Pkg != n.Pkg {
+				return fmt.Errorf("node %d: twin of a message that is not nested in the same package", i)
+			}
 		}
 		seen := map[int]bool{}
 		for _, grp := range n.Expose {
@@ -193,6 +295,7 @@ func (u *Universe) Build() (*Built, error) {
 		usesExt := false
 		usesStruct := false
 		usesAny := false
+		mds := map[int]*descriptorpb.DescriptorProto{}
 		for i, n := range u.Nodes {
 			if n.Pkg != p {
 				continue
@@ -296,7 +399,18 @@ func (u *Universe) Build() (*Built, error) {
 				})
 				usesAny = true
 			}
-			fd.MessageType = append(fd.MessageType, md)
+			mds[i] = md
+		}
+		for i, n := range u.Nodes {
+			md, ok := mds[i]
+			if !ok {
+				continue
+			}
+			if n.Nest > 0 {
+				mds[n.Nest-1].NestedType = append(mds[n.Nest-1].NestedType, md)
+			} else {
+				fd.MessageType = append(fd.MessageType, md)
+			}
 		}
 		var ds []int
 		for d := range deps {
@@ -324,7 +438,7 @@ func (u *Universe) Build() (*Built, error) {
 		}
 	}
 	for i, n := range u.Nodes {
-		b.ids[u.pkgName(n.Pkg)+"."+u.typeName(i)] = Name(i)
+		b.ids[u.pkgName(n.Pkg)+"."+u.splitName(i)] = u.Key(i)
 		for gi := range n.Expose {
 			b.ids[fmt.Sprintf("%s.%s_x%d", u.pkgName(n.Pkg), u.typeName(i), gi)] = OneofName(i, gi)
 		}
